@@ -39,3 +39,10 @@ def report (name : String) (bad : List String) : IO Unit :=
 #eval report "encryptedParityMod" (([0, 1, 2, 3, 4, 5, 6, 7, 2 ^ 63, 2 ^ 63 + 1, 2 ^ 63 + 3, 2 ^ 64 - 1, 2 ^ 64 - 3, 6917529027641081857] : List Nat).filterMap fun n =>
   let g := (encryptedParityMod (BitVec.ofNat 64 n)).toNat
   if g = n % 4 then none else some s!"msg_id={n}: code {g}, model {n % 4}")
+#eval report "sendPacketMsgId" ((clocks.flatMap fun ns => [0, 4, Mtv.Client.genId ns - 4, Mtv.Client.genId ns, Mtv.Client.genId ns + 4, Mtv.Client.genId ns + 400].map fun l => (ns, l)).filterMap fun (ns, last) =>
+  let g := (sendPacketMsgId (generateMessageId (BitVec.ofNat 64 ns)) (BitVec.ofNat 64 last)).toNat
+  if g = Mtv.Client.nextId last ns then none else some s!"unixnano={ns} lastMsgID={last}: code {g}, model {Mtv.Client.nextId last ns}")
+#eval report "seqNo" (([0, 2, 4, 6, 1000, 2 ^ 31 - 2, 2 ^ 31, 2 ^ 32 - 2] : List Nat).filterMap fun n =>
+  let c := (seqNoContent (BitVec.ofNat 32 n)).toNat
+  let v := (seqNoService (BitVec.ofNat 32 n)).toNat
+  if c = n + 1 ∧ v = n then none else some s!"seqNo={n}: code content {c} service {v}, model {n + 1} {n}")
